@@ -2400,7 +2400,9 @@ evhttp_method_may_have_body_(struct evhttp_connection *evcon, enum evhttp_cmd_ty
 static void
 evhttp_get_body(struct evhttp_connection *evcon, struct evhttp_request *req)
 {
-	const char *xfer_enc;
+	const char *xfer_enc = NULL;
+	struct evkeyval *header;
+	int n_xfer_enc = 0;
 
 	/* If this is a request without a body, then we are done */
 	if (req->kind == EVHTTP_REQUEST &&
@@ -2409,10 +2411,21 @@ evhttp_get_body(struct evhttp_connection *evcon, struct evhttp_request *req)
 		return;
 	}
 	evcon->state = EVCON_READING_BODY;
-	xfer_enc = evhttp_find_header(req->input_headers, "Transfer-Encoding");
-	if (xfer_enc != NULL && evutil_ascii_strcasecmp(xfer_enc, "chunked") == 0) {
+	TAILQ_FOREACH(header, req->input_headers, next) {
+		if (evutil_ascii_strcasecmp(header->key, "Transfer-Encoding") == 0) {
+			xfer_enc = header->value;
+			++n_xfer_enc;
+		}
+	}
+	if (n_xfer_enc == 1 && evutil_ascii_strcasecmp(xfer_enc, "chunked") == 0) {
 		req->chunked = 1;
 		req->ntoread = -1;
+	} else if (n_xfer_enc > 0 && req->kind == EVHTTP_REQUEST) {
+		/* RFC 9112 6.3: a request with a Transfer-Encoding we cannot
+		 * decode (anything but a single "chunked") has no reliable
+		 * framing; never fall back to Content-Length. */
+		evhttp_connection_fail_(evcon, EVREQ_HTTP_INVALID_HEADER);
+		return;
 	} else {
 		if (evhttp_get_body_length(req) == -1) {
 			evhttp_connection_fail_(evcon, EVREQ_HTTP_INVALID_HEADER);
